@@ -2,7 +2,7 @@
 # Rebuild everything a check needs from files on disk and from $VERIF_REPO's working tree.
 # usage: bin/build.sh [gen] [coq] [ocaml] [harness]   (default: all). Serialised by a lock.
 set -u
-V=/verif
+V=${VERIF_DIR:-$(cd "$(dirname "$(readlink -f "$0")")/.." && pwd)}
 REPO=${VERIF_REPO:-/repo}
 export GOFLAGS=-mod=mod GOPROXY=off GOSUMDB=off GOTOOLCHAIN=local CGO_ENABLED=0
 what="${*:-harness gen coq ocaml}"
